@@ -147,16 +147,19 @@ class MoveMachine(e2.Machine):
         self.mode = mode          # 'int': the base object is built from Python int coordinates
         self.name = '%s#%d%s' % (kind, idx, '' if mode == 'float' else '/int')
         self.max_depth = depth
+        self.full_sigma = True
         self.probes0 = PROBES
         self.ppts0 = probe_points(base)
         self._fresh_cache = {}
 
     def letters(self, hist):
         out = []
-        for i in range(len(SIGMA)):
+        for i in (range(len(SIGMA)) if self.full_sigma else (0, 3, 4, 5)):
             out.append(('M', i))
             out.append(('C', i))
         out.append(('D',))
+        if not any(ev[0] == 'K' for ev in hist):
+            out.append(('K',))     # keep a deep copy of the receiver as a bystander: it must stay where it was
         out.append(('Q',))     # run the whole query battery on the receiver (primes any cache) and go on
         out.append(('B', 4))   # move by v then by -v (must restore)
         out.append(('B', 5))
@@ -178,9 +181,16 @@ class MoveMachine(e2.Machine):
         ret = None
         last_eq = None
         t = (0, 0, 0)
+        kept = None
+        kept_t = None
         for ev in hist:
             if ev[0] in ('M', 'C'):
                 t = X.add(t, SIGMA[ev[1]])
+            if ev[0] == 'K':
+                kept = lib.call(copy.deepcopy, recv)
+                kept_t = t
+                last_eq = None
+                continue
             if ev[0] == 'Q':
                 probes = [lib.to_lib(translate(p, t)) for p in self.probes0]
                 ppts = [lib.P(X.add(p, t)) for p in self.ppts0]
@@ -209,11 +219,13 @@ class MoveMachine(e2.Machine):
                 r1 = lib.call(recv.move, v)
                 ret = lib.call(recv.move, -v)
                 last_eq = ('B', ret, recv) if not isinstance(r1, lib.Raised) else ('B', r1, recv)
-        return {'recv': recv, 'ret': ret, 'last': last_eq}
+        return {'recv': recv, 'ret': ret, 'last': last_eq, 'kept': kept, 'kept_t': kept_t}
 
     def key(self, st, hist):
         ret = st['ret']
-        return (snapshot((st['recv'], None if isinstance(ret, lib.Raised) else ret)), self.model(hist))
+        kept = st.get('kept')
+        return (snapshot((st['recv'], None if isinstance(ret, lib.Raised) else ret, None if isinstance(kept, lib.Raised) else kept)),
+                self.model(hist), st.get('kept_t'))
 
     def fresh(self, t):
         if t not in self._fresh_cache:
@@ -259,6 +271,22 @@ class MoveMachine(e2.Machine):
         handles = [('recv', st['recv'])]
         if st['ret'] is not None and st['ret'] is not st['recv'] and not isinstance(st['ret'], lib.Raised):
             handles.append(('ret', st['ret']))
+        kept = st.get('kept')
+        if kept is not None:
+            if isinstance(kept, lib.Raised):
+                bad('kept-copy', 'deepcopy-raises:' + kept.cls, 'a copy', repr(kept))
+            else:
+                kt = st['kept_t']
+                kb, kh = self.fresh(kt)
+                kprobes = [lib.to_lib(translate(p, kt)) for p in self.probes0]
+                kppts = [lib.P(X.add(p, kt)) for p in self.ppts0]
+                b = battery(kept, kprobes, kppts)
+                for (lab, got), (lab2, exp) in zip(b, kb):
+                    if lab != lab2 or not near(got, exp):
+                        bad('kept-copy', 'deepcopy-taken-earlier-changed-by-moving-the-source:' + lab.rstrip('0123456789'), exp, got, 'query %s' % lab)
+                        break
+                if lib.call(hash, kept) != kh:
+                    bad('kept-copy', 'deepcopy-taken-earlier-hash-changed', 'hash(fresh)', 'different hash')
         for hname, o in handles:
             b = battery(o, probes, ppts)
             if len(b) != len(fresh_b):
@@ -282,6 +310,13 @@ DEPTHS = {'quick': {'flat': 3, 'polygon': 3, 'polyhedron': 2}, 'thorough': {'fla
 
 
 def machines(tier):
+    ms = _machines(tier)
+    for m in ms:
+        m.full_sigma = (tier != 'quick')      # quick: 4 of the 7 translation letters (zero, +z, oblique, fractional)
+    return ms
+
+
+def _machines(tier):
     ms = []
     for kind, bases in BASES.items():
         cls = 'polygon' if kind == 'ConvexPolygon' else ('polyhedron' if kind == 'ConvexPolyhedron' else 'flat')
@@ -298,7 +333,7 @@ def run(tier, seed):
     res.rule = ('states = distinct (bit-exact object-graph snapshot of receiver+returned handle incl. aliasing, model translation) reached by all '
                 'histories over {move(v), chained move(v), deepcopy, query battery, move(v);move(-v)} with v in a 7-letter lattice alphabet up to the stated depth per '
                 'type; in every state both handles answer the full query battery like a freshly constructed object at the model translation')
-    res.alphabets = {'moves': [core.enc(v) for v in SIGMA], 'letters_per_state': 18, 'depth': DEPTHS[tier],
+    res.alphabets = {'moves': [core.enc(v) for v in SIGMA], 'letters_per_state': 19, 'depth': DEPTHS[tier],
                      'bases': {k: len(v) for k, v in BASES.items()}, 'probes': len(PROBES)}
     return res
 
